@@ -337,6 +337,98 @@ example :
     = [.unit, .unit, .unit, .list [2, 3], .list [1, 4, 5], .unit, .list [1, 4, 2, 3, 5],
        .unit, .list [1, 2, 3, 5], .list [4], .nat 4, .pair 5 true, .pair 0 false] := by decide
 
+/-!
+### `Join` and `Pop` produce exactly the documented cycles
+
+`Cyc h c`: the duplicate-free list `c` of cells is a cycle of `next` read from its first element
+(with `Inv`, `prev` walks it backwards).
+
+* `C10_ring_join_different`: rings `[r1 … rn]` and `[s1 … sm]` (disjoint) become
+  `[r1 s1 … sm r2 … rn]`, and `Join` returns `r2` (`r1` itself when `n = 1`).
+* `C10_ring_join_same`: for `[r1 r2 … ri s1 … ]` with at least one element between `r1` and `s1`,
+  the ring becomes `[r1 s1 …]`, the spliced-out `[r2 … ri]` is a ring of its own and `r2` is
+  returned.  (Distance 0 and 1 return nil and change nothing: by definition of `join`.)
+* `C10_ring_pop`: `[a r rest…]` becomes `[a rest…]` and `[r]`; a singleton is left alone.
+All of them keep `Inv`, the number of cells and all values.
+-/
+
+theorem C10_ring_join_different (h : Heap) (hi : Inv h) (r s : Nat) (rs ss : List Nat)
+    (c1 : Cyc h (r :: rs)) (c2 : Cyc h (s :: ss)) (hd : ∀ x ∈ r :: rs, x ∉ s :: ss) :
+    ∃ h', join h (some r) (some s) = .ok (h', some (rs.headD r)) ∧
+      Cyc h' (r :: ((s :: ss) ++ rs)) ∧ Inv h' ∧ h'.size = h.size ∧ h'.vals = h.vals := by
+  obtain ⟨cs, c, hsn⟩ := exists_snoc (s :: ss) (by simp)
+  have hr := c1.bound r (by simp)
+  have hs := c2.bound s (by simp)
+  have hnr : h.nx r = rs.headD r := by have := c1.lk; simp only [Lk, List.headD_cons] at this; exact this.1
+  have h1 : r ≠ s := fun e => hd r (by simp) (by simp [e])
+  have h2 : h.nx r ≠ s := by
+    rw [hnr]; intro e
+    have : rs.headD r ∈ r :: rs := by cases rs <;> simp
+    exact hd _ this (by rw [e]; simp)
+  have hpv : h.pv s = c := by
+    have := cyc_pv_head h hi cs c (hsn ▸ c2)
+    rw [← hsn] at this; simpa using this
+  obtain ⟨h', e, sz, v, i', hnx⟩ := join_nx h hi r s hr hs h1 h2
+  refine ⟨h', by rw [e, hnr], ?_, i', sz, v⟩
+  rw [hsn]
+  apply exchange_merge h h' r c rs cs sz ?_ c1 (hsn ▸ c2) (by rw [← hsn]; exact hd)
+  intro k; rw [hnx k, hpv]
+
+theorem C10_ring_join_same (h : Heap) (hi : Inv h) (r c s : Nat) (m rest : List Nat)
+    (c1 : Cyc h (r :: ((m ++ [c]) ++ (s :: rest)))) :
+    ∃ h', join h (some r) (some s) = .ok (h', some ((m ++ [c]).headD 0)) ∧
+      Cyc h' (r :: s :: rest) ∧ Cyc h' (m ++ [c]) ∧ Inv h' ∧ h'.size = h.size ∧ h'.vals = h.vals := by
+  have hr := c1.bound r (by simp)
+  have hs := c1.bound s (by simp)
+  have hc := c1.bound c (by simp)
+  have l := c1.lk
+  simp only [Lk, List.headD_cons] at l
+  obtain ⟨la, l⟩ := l
+  rw [lk_append, lk_append] at l
+  simp only [Lk, List.headD_cons, List.headD_nil, and_true] at l
+  have hnr : h.nx r = (m ++ [c]).headD 0 := by rw [la]; exact headD_snoc_append m c (s :: rest) r 0
+  have hnc : h.nx c = s := l.1.2
+  have hpv : h.pv s = c := by rw [← hnc]; exact hi.pn c hc
+  have nd := c1.nodup
+  rw [List.nodup_cons, List.nodup_append] at nd
+  have h1 : r ≠ s := fun e => nd.1 (by simp [e])
+  have h2 : h.nx r ≠ s := by
+    rw [hnr]; intro e
+    have : (m ++ [c]).headD 0 ∈ m ++ [c] := by cases m <;> simp
+    exact nd.2.2.2 _ this s (by simp) e
+  obtain ⟨h', e, sz, v, i', hnx⟩ := join_nx h hi r s hr hs h1 h2
+  have := exchange_split h h' r c m (s :: rest) sz (by intro k; rw [hnx k, hpv]) c1
+  exact ⟨h', by rw [e, hnr], this.1, this.2, i', sz, v⟩
+
+theorem C10_ring_pop (h : Heap) (hi : Inv h) (a r : Nat) (rest : List Nat) (c1 : Cyc h (a :: r :: rest)) :
+    Cyc (pop h (some r)) [r] ∧ Cyc (pop h (some r)) (a :: rest) ∧ Inv (pop h (some r)) ∧
+      (pop h (some r)).size = h.size ∧ (pop h (some r)).vals = h.vals := by
+  have ha := c1.bound a (by simp)
+  have hr := c1.bound r (by simp)
+  have l := c1.lk
+  simp only [Lk, List.headD_cons] at l
+  have hpv : h.pv r = a := by rw [← l.1]; exact hi.pn a ha
+  have nd := c1.nodup
+  rw [List.nodup_cons] at nd
+  have har : a ≠ r := fun e => nd.1 (by simp [e])
+  have hc : h.pv r ≠ r := by rw [hpv]; exact har
+  obtain ⟨i', sz, v, _, _⟩ := pop_inv h hi r hr
+  have := exchange_split h (pop h (some r)) a r [] rest sz
+    (by intro k; rw [pop_nx h hi r hr hc k, hpv]) (by simpa using c1)
+  exact ⟨by simpa using this.2, this.1, i', sz, v⟩
+
+theorem C10_ring_pop_singleton (h : Heap) (hi : Inv h) (r : Nat) (c1 : Cyc h [r]) : pop h (some r) = h := by
+  have l := c1.lk
+  simp only [Lk, List.headD_cons, List.headD_nil, and_true] at l
+  have : h.pv r = r := by have := hi.pn r (c1.bound r (by simp)); rw [l] at this; exact this
+  simp [pop, this]
+
+/-- non-vacuity of `Cyc`/`Inv`: `Of 1 2 3` on the empty heap is the cycle of cells `[0, 2, 1]` carrying
+`[1, 2, 3]` (the loop of `New` inserts each fresh cell directly after the first one) -/
+example : Cyc (of {} [1, 2, 3]).1 [0, 2, 1] ∧ [0, 2, 1].map (of {} [1, 2, 3]).1.val = [1, 2, 3] ∧
+    Inv (of {} [1, 2, 3]).1 :=
+  ⟨⟨by simp, ⟨rfl, rfl, rfl, trivial⟩, by decide, by decide⟩, by decide, (of_inv {} inv_empty _).1⟩
+
 end ring
 
 end MdsVerif.Props.C10
